@@ -292,6 +292,28 @@ func famForge(r *Rng, o *Out, tier string) {
 			}
 			ne, _ := encOne(r.plainCav(1))
 			add("append", append(append([][]byte{}, cs...), ne))
+			// splice in caveats of the kinds verification treats specially (binding, third-party, attestation,
+			// unknown type, wrapper) at any position, tail kept: none of them may escape the MAC chain
+			{
+				bnd := macaroon.BindToParentToken(r.Bytes(pick(r, []int{0, 1, 4, 16, 32})))
+				uid := auth.FlyioUserID(r.id())
+				special := map[string]macaroon.Caveat{
+					"bind":   &bnd,
+					"3p":     &macaroon.Caveat3P{Location: "https://x.example", VerifierKey: r.Bytes(pick(r, []int{0, 12, 60})), Ticket: r.Bytes(pick(r, []int{0, 8, 40}))},
+					"attest": &uid,
+					"unreg":  &macaroon.UnregisteredCaveat{Type: macaroon.CaveatType(1 << 33), RawMsgpack: []byte{0xc0}},
+					"wrap":   &resset.IfPresent{Ifs: macaroon.NewCaveatSet(r.plainCav(0)), Else: resset.ActionAll},
+				}
+				for _, name := range []string{"bind", "3p", "attest", "unreg", "wrap"} {
+					se, err := encOne(special[name])
+					if err != nil {
+						continue
+					}
+					at := r.Intn(len(cs) + 1)
+					ins := append(append(append([][]byte{}, cs[:at]...), se), cs[at:]...)
+					add("insert."+name, ins)
+				}
+			}
 			for ei, e := range edits {
 				for _, t := range tailsFor(e) {
 					try(names[ei], assemble(nEnc, loc, e, t))
